@@ -24,6 +24,8 @@ for d in sorted(glob.glob('/tmp/r10/out/C*_[12]/')):
         print('NOT CONFIRMED', pid, v, c)
         continue
     dst = f'seeded/{pid}/{newname[v]}'
+    if os.path.exists(dst + '/meta.json'):
+        continue
     os.makedirs(dst, exist_ok=True)
     shutil.copy(d + 'patch.diff', dst + '/patch.diff')
     notes = open(d + 'notes.txt').read() if os.path.exists(d + 'notes.txt') else ''
